@@ -314,15 +314,8 @@ def handle : Handler
       match runOp u kind args (stOf pre) with
       | none => badInput "op"
       | some res =>
-        let cls := resClass res
-        if cls != result then mismatch "result" cls result
-        else
-          -- (1) model vs implementation
-          let cmp := match res with
-            | .ok s' => cmpObs (obsOf u s') post
-            | _ => "ok"
-          if cmp != "ok" then cmp else
-          -- (2) predicates on the implementation's own observation
+        -- (2) predicates on the implementation's own observation (independent of the model; reported first)
+        let pred :=
           if result != "ok" then
             (if sameObs pre post then "ok" else predfail "C04_failed_noop" s!"{kind}-state-changed")
           else
@@ -337,6 +330,14 @@ def handle : Handler
                  | none => "ok")
               | _ => "ok"
             else "ok"
+        if pred != "ok" then pred else
+        -- (1) model vs implementation
+        let cls := resClass res
+        if cls != result then mismatch "result" cls result
+        else
+          match res with
+          | .ok s' => cmpObs (obsOf u s') post
+          | _ => "ok"
     | _, _, _, _, _ => badInput "parse"
   | _ => badInput "arity"
 
